@@ -216,11 +216,11 @@ func VerifC04SQLLeaseOps() {
 }
 
 // verif:harness props=C04,C03 tprops=C02 tier=quick weight=60
-// verif:bounds SQLiteStore.AckBatch/NackBatch/MarkDeadBatch over the SQL model: N=2 rows (thorough 3); batch of 2 lease ids (thorough 3) with repetition from {current ids, unknown, blank, padded}; arbitrary clock and delay
+// verif:bounds SQLiteStore.AckBatch/NackBatch/MarkDeadBatch over the SQL model: N=2 rows (thorough 3); batch of 2 lease ids with repetition from {current ids, unknown, blank, padded}; arbitrary clock and delay
 func VerifC04SQLLeaseBatch() {
 	n, k := 2, 2
 	if vrt.Thorough() {
-		n, k = 3, 3
+		n, k = 3, 2
 	}
 	w, _ := qNew(n, false)
 	retention := vrt.Bool("deliveredRetention")
@@ -262,11 +262,11 @@ func VerifC04SQLLeaseBatch() {
 }
 
 // verif:harness props=C14 tprops=C02 tier=quick weight=40
-// verif:bounds SQLiteStore cancel/requeue/resume by id, DLQ requeue/delete over the SQL model: N=2 rows (thorough 3) in any state; id list of 2 entries (thorough 3) with repetition from {each id, padded id, empty, absent id}
+// verif:bounds SQLiteStore cancel/requeue/resume by id, DLQ requeue/delete over the SQL model: N=2 rows in any state; id list of 2 entries (thorough 3) with repetition from {each id, padded id, empty, absent id}
 func VerifC14SQLManageIDs() {
 	n, k := 2, 2
 	if vrt.Thorough() {
-		n, k = 3, 3
+		n, k = 2, 3
 	}
 	w, _ := qNew(n, false)
 	pre := w.snap()
@@ -350,11 +350,12 @@ func errClass(err error) int {
 }
 
 // verif:harness props=C13 tier=quick weight=90
-// verif:bounds the same state (N=2 rows/items on routes r0/r1, thorough 3; any states, arbitrary timestamps) in a MemoryStore and in a SQLiteStore over the SQL model, one operation with the same arguments on both: ack/nack/extend/mark-dead with a lease id from {current ids, unknown, blank} and arbitrary durations; ack/nack/mark-dead batch of 2; cancel/requeue/resume/DLQ requeue/DLQ delete by an id list of 2; dequeue with route filter none/r0/r1, batch N and arbitrary TTL (sweep due); single enqueue of a fresh or existing id under max_depth 1..N+1 with reject/drop_oldest (received_at in insertion order, active count within the limit); delivered-retention on/off on both
+// verif:bounds the same state (N=2 rows/items on routes r0/r1; thorough 3 for the single-lease and dequeue families; any states, arbitrary timestamps) in a MemoryStore and in a SQLiteStore over the SQL model, one operation with the same arguments on both: ack/nack/extend/mark-dead with a lease id from {current ids, unknown, blank} and arbitrary durations; ack/nack/mark-dead batch of 2; cancel/requeue/resume/DLQ requeue/DLQ delete by an id list of 2; dequeue with route filter none/r0/r1, batch N and arbitrary TTL (sweep due); single enqueue of a fresh or existing id under max_depth 1..N+1 with reject/drop_oldest (received_at in insertion order, active count within the limit); delivered-retention on/off on both
 func VerifC13MemoryVsSQLite() {
+	family := vrt.Choose("family", 5)
 	n := 2
-	if vrt.Thorough() {
-		n = 3
+	if vrt.Thorough() && (family == 0 || family == 3) {
+		n = 3 // (three rows for the single-lease and dequeue families; the other families do not finish with three)
 	}
 	w, m := qNew(n, true, true)
 	if vrt.Bool("deliveredRetention") {
@@ -363,7 +364,6 @@ func VerifC13MemoryVsSQLite() {
 	}
 	genLease := map[string]bool{}
 	retention := w.s.deliveredRetentionMaxAge > 0
-	family := vrt.Choose("family", 5)
 	d := vrt.Duration("d")
 	lm := []string{"L0", "L1", "zz", ""} // (blank-padded ids: see the single-lease note in DESIGN.md — memory does not trim them, SQLite does)
 	switch family {
